@@ -39,6 +39,11 @@ def main(argv):
         print(f"no check for {pid}: {e}")
         return 2
     ctx = Ctx(pid, tier, seed, level=getattr(mod, "LEVEL", "model_checking"))
+    # every temporary file of this run (the harness's own, werkzeug's, those of the repository tests run under the
+    # recording plug-ins) goes into the check's scratch directory, which is removed at the end
+    os.environ["TMPDIR"] = ctx.tmp
+    import tempfile
+    tempfile.tempdir = None
     try:
         use_repo()
         if replay:
